@@ -6,7 +6,7 @@ CONSTANTS
   NStores = 4
   MaxBytes = 8
   HostInit <- Host8
-  ESizes = {1, 2, 4}
+  ESizes = {1, 2, 3, 4}
   NStamps = 24
   PatMod = 200
   Dom <- DomFull
